@@ -47,6 +47,7 @@ FRESH = ('fresh-buffer',)
 FRAMED_FRESH = {'tokio_util::codec::framed::Framed::<T, U>::new': (0, 1), 'tokio_util::codec::framed::Framed::<T, U>::with_capacity': (0, 1), 'tokio_util::codec::decoder::Decoder::framed': (1, 0)}
 FROM_PARTS = 'tokio_util::codec::framed::Framed::<T, U>::from_parts'
 PARTS_NEW = 'tokio_util::codec::framed::FramedParts::<T, U>::new'
+EMPTY_BUFFER = ('bytes::bytes_mut::BytesMut::new', 'bytes::bytes_mut::BytesMut::with_capacity', '<bytes::bytes_mut::BytesMut as core::default::Default>::default')
 
 def transport_of(t, o):
     """What a `Framed` value is built from, read off its constructor term and the stores that precede the construction on path o:
@@ -71,25 +72,44 @@ def transport_of(t, o):
     at = next((i for i, e in enumerate(o.st.ev) if e[0] == 'call' and e[1] == FROM_PARTS and e[3].get('id') == t[3]), None)
     if at is None:
         return None
-    stored, touched = {}, []
+    stored, touched = {}, {}
+    def without_fields(x):
+        # x with every `P.f` cut out: what is left of P in it is the parts value as a whole
+        if isinstance(x, tuple):
+            if len(x) == 3 and x[0] == 'field' and x[1] == P:
+                return ('cut',)
+            return tuple(without_fields(y) for y in x)
+        return x
     for e in o.st.ev[:at]:
         if e[0] == 'store' and e[1][0] == 'field' and e[1][1] == P:
             stored[e[1][2]] = e[2]
         elif e[0] == 'store' and absx.is_subplace(e[1], P):
-            stored['?'] = e[2]                  # a store below one of its fields: that field is no longer what was put there
-        elif e[0] == 'call' and any(absx.leaves(x, lambda y: y == P) for x in e[2]):
-            touched.append(e[1])
+            k = e[1]
+            while k[1] != P:
+                k = k[1]
+            touched.setdefault(k[2], 'a store inside it')   # a store below one of its fields: that field is no longer what was put there
+        elif e[0] == 'call':
+            # the parts value - or one of its fields - handed to a function (possibly by `&mut`): what the callee leaves there is not modelled
+            for x in e[2]:
+                for y in absx.leaves(x, lambda y: len(y) == 3 and y[0] == 'field' and y[1] == P):
+                    touched.setdefault(y[2], e[1].rsplit('::', 1)[-1])
+                if absx.leaves(without_fields(x), lambda y: y == P):
+                    touched.setdefault('*', e[1].rsplit('::', 1)[-1])
         elif e[0] == 'store-unknown':
-            touched.append('store-unknown')
+            touched.setdefault('*', 'a store the interpreter could not place')
     made_new = P[0] == 'call' and P[1] == PARTS_NEW and len(P[2]) == 2
     out = {}
     for name, k in (('io', 0), ('codec', 1), ('read_buf', None), ('write_buf', None)):
+        why = touched.get(name) or touched.get('*')
         if name in stored:
-            out[name] = stored[name]
+            v = stored[name]
+            if k is None and why is None and v[0] == 'call' and v[1] in EMPTY_BUFFER and all(x[0] == 'lit' for x in v[2]):
+                v = FRESH       # BytesMut::new() / with_capacity(n) / default(): a new buffer of length 0
+            out[name] = v
         elif made_new and k is not None:
             out[name] = P[2][k]
         elif made_new:
-            out[name] = FRESH if not touched and '?' not in stored else ('unk', 'parts value handed to %s before from_parts' % (touched or ['a nested store'])[0].rsplit('::', 1)[-1])
+            out[name] = FRESH if why is None else ('unk', 'a buffer handed to %s before from_parts' % why)
         else:
             out[name] = ('field', P, name)
     return out
@@ -189,7 +209,8 @@ def run(ctx):
             # nothing else of the cleartext transport survives the upgrade: of its parts only io and codec flow anywhere on this path
             if old is not None:
                 used = set()
-                for t in [x for e in o.st.ev if e[0] in ('call', 'store') for x in (e[2] if e[0] == 'call' else (e[2],))] + list(o.st.heap.values()) + [o.val]:
+                # (what a call is given, what a place holds when the path ends, what is returned; a value stored and overwritten again went nowhere)
+                for t in [x for e in o.st.ev if e[0] == 'call' for x in e[2]] + list(o.st.heap.values()) + [o.val]:
                     for x in absx.leaves(t, lambda x: x[0] == 'field' and x[1] == old):
                         used.add(x[2])
                 ctx.add('W3.only-io-and-codec', key, loc(B.root), used <= {'io', 'codec'}, 'parts of the cleartext transport that flow into the protected session: %s' % sorted(used - {'io', 'codec'}))
